@@ -7,4 +7,12 @@ def run(ctx):
         "model slot vectors of width 4 stand for all real slots (first 2 slots + periodic tail); the harness checks every real slot against its class",
         "noise budget: programs are pruned by the specification's worst-case noise recurrence (IntEval.tla: nb, Budget)",
     ]
-    run_inteval(ctx, frame=False)
+    fam = None
+    if ctx.replay:
+        import json
+        fam = json.load(open(ctx.replay)).get('family', 'inteval')
+    if fam in (None, 'inteval'):
+        run_inteval(ctx, frame=False)
+    if fam in (None, 'bigint'):
+        from checks.bigint import run_bigint
+        run_bigint(ctx)
